@@ -134,7 +134,7 @@ func alphabetKeys(cfg Cfg) []Op {
 
 func runC03(c *Ctx) {
 	depth := 3
-	cfgs := []Cfg{{}, {Cache: true, Index: 1}, {Async: 1, Index: 2}, {Compress: true, Lower: true, MapRev: true}}
+	cfgs := []Cfg{{}, {Cache: true, Index: 1}, {Async: 1, Index: 2}, {Compress: true, Lower: true, MapRev: true}, {Index: 3}}
 	if c.Tier == "thorough" {
 		depth = 4
 	}
